@@ -13,7 +13,7 @@ from vlib import irv
 RULE = ("the C04 workload restricted to auditable profiles; n = 3..7 candidates (8 in the thorough tier), hints none/true/wrong, "
         "both difficulty functions; non-trivial = the optimum is attained by an assertion that is not the cheapest for "
         "every order (at least two distinct difficulties among the per-order optima); distinct = hash of the case")
-REQUIRED = ["contest_object_reused_after_other_cvrs", "ballot_mappings_not_stored_in_preference_order", "ballots_whose_rank_numbers_have_holes", "optimum_compared", "hint:none", "hint:true", "hint:wrong", "asn:cp", "asn:bp", "n_candidates:3",
+REQUIRED = ["contest_object_reused_after_other_cvrs", "ballot_mappings_not_stored_in_preference_order", "ballots_whose_rank_numbers_have_holes", "optimum_compared", "hint:none", "hint:true", "hint:wrong", "asn:cp", "asn:bp", "runs_with_a_difficulty_function_that_is_not_shipped", "n_candidates:3",
             "n_candidates:4", "n_candidates:5", "n_candidates:6", "optimum_is_NEN", "optimum_is_NEB"]
 ASSUMPTIONS = ["difficulty functions decrease as the margin grows (both shipped ones do)", "ties in difficulty between "
                "different sets are irrelevant: only the value is compared (rtol 1e-9)"]
